@@ -307,16 +307,19 @@ def B(x=1):
 
 t = A
 
-@m.memento_function
+def load(x):
+    return t(x)
+
+%(decM)s
 def M(x=1, hid=None):
     sys.audit('vf.body', 'M', x)
     if hid is not None:
         return ['M', globals()[hid](0)]
-    return ['M', t(x)]
+    return ['M', %(ref)s(x)]
 """
 
 
-def _rebind_child(root, store, decA, decB):
+def _rebind_child(root, store, decA, decB, decM="@m.memento_function", ref="t"):
     import importlib
     import sys
 
@@ -327,7 +330,7 @@ def _rebind_child(root, store, decA, decB):
     farm.set_env(store)
     os.makedirs(os.path.join(root, "vfr"))
     open(os.path.join(root, "vfr", "__init__.py"), "w").close()
-    open(os.path.join(root, "vfr", "a.py"), "w").write(REBIND_SRC % {"decA": decA, "decB": decB})
+    open(os.path.join(root, "vfr", "a.py"), "w").write(REBIND_SRC % {"decA": decA, "decB": decB, "decM": decM, "ref": ref})
     sys.path.insert(0, root)
     a = importlib.import_module("vfr.a")
     obs = []
@@ -413,9 +416,20 @@ def _redef_cycle_child(root, store):
                 o["G-calls-" + hid] = "refused"
             except Exception as e:
                 o["G-calls-" + hid] = "exc:%s" % type(e).__name__
+        if hasattr(a, "legacy_G"):
+            # the superseded definition of G is still held under another name: it is not the G of F's closure any more
+            n[0] += 1
+            try:
+                a.F(n[0], hid="legacy_G")
+                o["F-calls-superseded-G"] = "ok"
+            except UndeclaredDependencyError:
+                o["F-calls-superseded-G"] = "refused"
+            except Exception as e:
+                o["F-calls-superseded-G"] = "exc:%s" % type(e).__name__
         return o
 
     obs = [look()]
+    a.legacy_G = a.G
     # G is re-defined in the running process (the definition alone is executed again, as a notebook cell would): it now
     # names NEW instead of OLD. F <-> G stay on a cycle.
     src = "import sys\nimport twosigma.memento as m\n" + REDEF_G % "NEW"
@@ -437,6 +451,8 @@ def redef_cycle_case(_):
         for k, (o, leaf) in enumerate(zip(obs, ("OLD", "NEW"))):
             other = "NEW" if leaf == "OLD" else "OLD"
             want = {"F.trans": sorted(["G", leaf]), "G.trans": sorted(["F", leaf]), "G-calls-" + leaf: "ok", "G-calls-" + other: "refused"}
+            if k:
+                want["F-calls-superseded-G"] = "refused"
             if o != want:
                 diff = sorted(x for x in want if o.get(x) != want[x])
                 out["violations"].append(("redefined-on-cycle|step:%d|differs:%s" % (k, "+".join(diff)),
@@ -451,22 +467,28 @@ def redef_cycle_case(_):
 def rebind_case(args):
     """A name in the body is re-pointed, in the running process, from one memento function to another: the reported
     closure and the run-time check must follow the reference graph of the moment."""
-    decA, decB, label = args
+    decA, decB, label = args[:3]
+    decM, ref = (args[3], args[4]) if len(args) > 3 else ("@m.memento_function", "t")
+    label += ("|caller-with-declared-version" if "version" in decM else "") + ("|through-plain-helper" if ref != "t" else "")
     top = scratch_dir("c14r")
     out = {"evaluations": 1, "states": 3, "transitions": 3, "traces": 1, "violations": [], "outcomes": ["rebind|" + label]}
     try:
         try:
-            obs = farm.fork_call(_rebind_child, top, os.path.join(top, "store"), decA, decB)
+            obs = farm.fork_call(_rebind_child, top, os.path.join(top, "store"), decA, decB, decM, ref)
         except farm.ChildFailed as e:
             raise HarnessError("rebind child failed: %s" % e)
         for k, (o, tgt) in enumerate(zip(obs, ("A", "B", "A"))):
             other = "B" if tgt == "A" else "A"
-            want = {"trans": [tgt], "direct": [tgt], "links": [("M", tgt)], "call-" + tgt: "ok", "call-" + other: "refused"}
+            want = {"trans": [tgt], "direct": [tgt] if ref == "t" else [], "links": [("M", tgt)] if ref == "t" else [("M", "load"), ("load", tgt)],
+                    "call-" + tgt: "ok", "call-" + other: "refused" if "version" not in decM else "ok"}
+            if ref != "t":
+                o = {x: y for x, y in o.items() if x not in ("direct", "links")}  # (how edges through plain helpers are drawn is covered by the graph cases)
+                want = {x: y for x, y in want.items() if x not in ("direct", "links")}
             if o != want:
                 diff = sorted(x for x in want if o.get(x) != want[x])
                 out["violations"].append(("rebind|%s|step:%d|differs:%s" % (label, k, "+".join(diff)),
                                           "M refers to t; t = %s%s: observed %s, the reference graph gives %s" % (tgt, " (re-pointed in the running process)" if k else "", {x: o.get(x) for x in diff}, {x: want[x] for x in diff}),
-                                          {"rebind": [decA, decB, label]}))
+                                          {"rebind": [decA, decB, args[2], decM, ref]}))
                 break
     finally:
         rm(top)
@@ -552,6 +574,7 @@ def run(ctx):
     ctx.merge(res)
     E1, E2, AUTO = "@m.memento_function(version='1')", "@m.memento_function(version='2')", "@m.memento_function"
     rb = [(E1, E1, "explicit-same-version"), (E1, E2, "explicit-different-versions"), (AUTO, AUTO, "auto"), (AUTO, E1, "auto-and-explicit")]
+    rb += [(a_, b_, lab, dm, rf) for (a_, b_, lab) in rb[:4] for dm in (AUTO, E1) for rf in ("t", "load") if (dm, rf) != (AUTO, "t")]
     ctx.merge(pmap(rebind_case, rb, chunksize=1))
     ctx.merge([redef_cycle_case(None)])
     # the run-time check decides by the calling frame: it must be the frame of the calling THREAD
